@@ -11,7 +11,8 @@ CONSTANT RenameSites     \* sites at which the reference merge rewrites referenc
 
 VARIABLE sc
 AllButInstanceTypeRef == SiteIds \ {"INSTANCE.type_ref"}
-Modes == {"plain", "conflict", "twin", "homonym", "premerge", "premerge_b", "premerge_ab", "owner_conflict", "owner_union"}
+Modes == {"plain", "conflict", "twin", "homonym", "premerge", "premerge_b", "premerge_ab", "owner_conflict", "owner_union",
+          "owner_union_overlap"}
 Renamable(ns) == ns \notin ({"FUNCTION", "GROUP", "USER_RIGHTS", "MOD_COMMON", "VARIANT_CODING"} \cup LocalNs)
 SeqRange(s) == {s[i] : i \in 1..Len(s)}
 
@@ -28,7 +29,8 @@ Valid(x) ==
                ELSE x.ak = "-"
     /\ (x.pos > 1 => SiteIsList[x.site])
     /\ (x.mode = "owner_conflict" => Renamable(ok) /\ x.pos = 1)
-    /\ (x.mode = "owner_union" => SiteOwner[x.site] \in UnionKinds /\ x.pos = 1)
+    /\ (x.mode \in {"owner_union", "owner_union_overlap"} => SiteOwner[x.site] \in UnionKinds /\ x.pos = 1)
+    /\ (x.mode = "owner_union_overlap" => SiteIsList[x.site])
     /\ (x.mode = "twin" => n \notin LocalNs)
     /\ (x.mode \in {"premerge", "premerge_b", "premerge_ab"} => x.pos = 1 /\ x.ak = x.tk)
     /\ (x.mode = "homonym" => x.pos = 1)
@@ -64,6 +66,10 @@ CaseOf(x) ==
                [] x.mode = "premerge_ab" -> <<El(x.ak, "t1", 30, <<>>), El(x.ak, "t1.MERGE", 33, <<>>)>>
                [] x.mode = "owner_conflict" -> <<El(x.ak, "t1", 30, <<>>), El(okind, "o1", 35, <<>>)>>
                [] x.mode = "owner_union" -> <<El(x.tk, "z1", 34, <<>>), El(okind, "o1", 36, <<<<s, <<"z1">>>>>>)>>
+               \* both owners hold t1 and y1 (identical twins in A), A's list has another member between them
+               [] x.mode = "owner_union_overlap" ->
+                     <<El(x.tk, "t1", 20, <<>>), El(x.tk, "y1", 22, <<>>), El(x.tk, "z1", 34, <<>>),
+                       El(okind, "o1", 36, <<<<s, <<"t1", "z1", "y1">>>>>>)>>
     IN [id |-> x, A |-> a, B |-> <<owner>> \o targets \o bextra]
 
 \* abstract module -> module graph
